@@ -225,7 +225,7 @@ def run(ctx, nvalues=None):
             except BaseException as e:  # noqa: BLE001
                 res.violations.append(dict(case={"tokens": pyval.render(v), "origin": "named-class " + nm}, what="instance of class %s raised %s instead of DumpError" % (nm, type(e).__name__)))
     # 3. generated main stream + malformed stream
-    n = nvalues or ctx.budget(2500, 120000, 20000)
+    n = nvalues or ctx.budget(2500, 120000, 7000)
     rng = ctx.rng("values")
     chan_values = []
     for i in range(n):
